@@ -3,6 +3,7 @@ CONSTANTS
   NameMask = 7
   Family = "neg"
   MaxKeys = 2
+  MaxEdits = 1
   Defect = "unsaturated"
 INVARIANT OrderInv
 CHECK_DEADLOCK FALSE
